@@ -308,13 +308,20 @@ pub fn check_c01(plan: &Plan, run: &TcpRun, w: &world::World) -> Vec<Violation> 
         // (3) completeness
         let up_complete = o.target.recv.len() >= want_up.len();
         let down_complete = o.app.recv.len() >= want_down.len();
+        // an abort that follows the data (RST ordered after it, see `Pipe::fin_is_rst`): the proxy has read every byte before the
+        // error, so they are owed to the other end - demanded while the opposite direction is at rest (the teardown race of
+        // the known finding is a different matter)
+        let rest_up = o.target.recv.len() >= want_up.len() && o.app.script_done;
+        let rest_down = o.app.recv.len() >= want_down.len() && o.target.script_done;
         let (need_up, need_down, need_app_eof, need_target_eof) = match f.ending {
+            Ending::TargetResetAfterWrite => (false, rest_up, false, false),
+            Ending::AppResetAfterWrite => (rest_down, false, false, false),
             Ending::None => (true, true, false, false),
             Ending::TargetAfterAll => (true, true, true, false),
             Ending::TargetAfterWrite => (false, true, true, false),
             Ending::AppAfterAll => (true, true, false, true),
             Ending::AppAfterWrite => (true, false, false, true),
-            Ending::AppReset | Ending::TargetReset | Ending::AppAbandon | Ending::TargetAbandon | Ending::AppResetAfterWrite | Ending::TargetResetAfterWrite => (false, false, false, false),
+            Ending::AppReset | Ending::TargetReset | Ending::AppAbandon | Ending::TargetAbandon => (false, false, false, false),
         };
         // was the opposite direction still moving when this one ended? (qualifies the teardown-race finding)
         let down_active = !down_complete || !o.target.script_done;
@@ -367,7 +374,7 @@ pub fn gen_flow(g: &mut Gen, ix: usize, hs: LocalHs, ending: Ending, max_bytes: 
     TcpFlow { hs, target_name, target_ip, target_port, start_ms: *g.pick(&[0, 0, 0, 1, 7, 300]), up, down, target_waits_for, ending, target_fault: None }
 }
 
-pub const C01_ENDINGS: [Ending; 5] = [Ending::None, Ending::AppAfterWrite, Ending::AppAfterAll, Ending::TargetAfterWrite, Ending::TargetAfterAll];
+pub const C01_ENDINGS: [Ending; 7] = [Ending::None, Ending::AppAfterWrite, Ending::AppAfterAll, Ending::TargetAfterWrite, Ending::TargetAfterAll, Ending::TargetResetAfterWrite, Ending::AppResetAfterWrite];
 pub const ALL_HS: [LocalHs; 4] = [LocalHs::Socks5V4, LocalHs::Socks5Domain, LocalHs::HttpConnect, LocalHs::HttpPlain];
 pub const TCP_TRANSPORTS: [Transport; 4] = [Transport::Tcp, Transport::Tls, Transport::Ws, Transport::Wss];
 /// every client <-> server transport of the README table
